@@ -3,7 +3,7 @@
 use crate::gal::*;
 use crate::rng::Rng;
 use crate::PropModule;
-use liwe::model::{is_ref_url, Key};
+use liwe::model::{is_ref_url, ref_url, strip_md, Key};
 use relative_path::RelativePath;
 use serde_json::{json, Value};
 
@@ -131,12 +131,23 @@ pub fn execute(v: &Value) -> String {
     let cjn = RelativePath::new(d).join_normalized(u).to_string();
     let cr = RelativePath::new(d).relative(u).to_string();
     let cn = RelativePath::new(u).normalize().to_string();
+    // the url as it is written: with the configured extension (".md" / none)
+    let w = |url: &str, d: &str, ext: &str| Key::from_rel_link_url(&ref_url(url, ext), d).to_string();
+    let rewrite_url = key(&from_rel).to_rel_link_url(d);
+    let self_url = kk.to_rel_link_url(&parent);
+    let path_key = Key::from_file_name(&to_path).to_string();
     gapp(
         "Check_C15.Case",
         &[
             gstr(k), gstr(d), gstr(u), gstr(&to_rel), gstr(&rt), gstr(&from_rel), gstr(&rewrite), gstr(&parent),
             gstr(&self_rt), gstr(&url_parent), gstr(&from_file), gstr(&to_path), gbool(is_ref), gstr(&cj),
             gstr(&cjn), gstr(&cr), gstr(&cn),
+            gstr(&ref_url(&to_rel, ".md")), gstr(&ref_url(&to_rel, "")), gstr(&ref_url(u, ".md")), gstr(&ref_url(u, "")),
+            gstr(strip_md(u)),
+            gstr(&w(&to_rel, d, ".md")), gstr(&w(&to_rel, d, "")),
+            gstr(&w(&rewrite_url, d, ".md")), gstr(&w(&rewrite_url, d, "")),
+            gstr(&w(&self_url, &parent, ".md")), gstr(&w(&self_url, &parent, "")),
+            gstr(&path_key),
         ],
     )
 }
